@@ -445,7 +445,32 @@ func runCheck(repo, verif, prop, tier string) int {
 	for _, s := range res.standins {
 		standinEv = append(standinEv, map[string]any{"name": s.Name, "function": s.Function, "bound": s.Bound, "cases": s.Cases, "violations": len(s.Violations), "label": "bounded (not counted in obligations/discharged)", "seconds": round2(s.Seconds), "broken": s.Broken})
 	}
+	// thorough tier: sampled audit of the executable assumed contracts against the real libraries
+	var auditEv map[string]any
+	auditBroken := ""
+	if tier == "thorough" {
+		txt, aerr := runOverlayTest(repo, "internal/dag", filepath.Join(verif, "audit", "assumed_audit_test.go"), "zz_verif_audit_test.go",
+			"TestVerifAuditAssumedContracts", filepath.Join(out, "work", prop), []string{"VERIF_SEED=" + strconv.Itoa(seed)}, 300)
+		m := regexp.MustCompile(`(?m)^VAUDIT checked=(\d+) failed=(\d+)`).FindStringSubmatch(txt)
+		var fails []string
+		for _, l := range strings.Split(txt, "\n") {
+			if strings.HasPrefix(l, "VAUDIT-FAIL ") {
+				fails = append(fails, l[len("VAUDIT-FAIL "):])
+			}
+		}
+		switch {
+		case m == nil:
+			auditBroken = fmt.Sprintf("the audit of the assumed contracts did not run to completion (%v): %s", aerr, trunc(txt, 600))
+		case m[2] != "0":
+			auditBroken = "an assumed library contract disagrees with the real library: " + strings.Join(fails, "; ")
+		}
+		auditEv = map[string]any{"ran": m != nil, "disagreements": fails}
+		if m != nil {
+			auditEv["comparisons"], _ = strconv.Atoi(m[1])
+		}
+	}
 	cov := map[string]any{
+		"assumed_contract_audit":     auditEv,
 		"obligations":                nObl,
 		"discharged":                 nDis,
 		"checker_cmd":                fmt.Sprintf("/verif/bin/check %s %s  (govc: go/ssa of /repo -> SMT-LIB; z3-new 5.1.0, cvc5 1.0.3, z3 4.8.12)", prop, tier),
@@ -490,6 +515,11 @@ func runCheck(repo, verif, prop, tier string) int {
 	}
 	if len(violations) > 0 {
 		return 1
+	}
+	if auditBroken != "" {
+		// not a property violation: the machinery's own assumptions are wrong and nothing it says is to be believed
+		fmt.Fprintf(os.Stderr, "govc: AUDIT-FAILED %s\n", auditBroken)
+		return 3
 	}
 	return 0
 }
